@@ -86,14 +86,18 @@ func (w *wrapSrv) Shutdown(ctx context.Context) error {
 // fakeSrv really binds a loopback listener (so the runner's TCP readiness probe is the real one) but
 // serves nothing: accepted connections are closed at once.
 type fakeSrv struct {
-	addr string
-	mu   sync.Mutex
-	ln   net.Listener
-	shut bool
-	fail error // scripted Shutdown result
+	addr  string
+	mu    sync.Mutex
+	ln    net.Listener
+	shut  bool
+	fail  error         // scripted Shutdown result
+	delay time.Duration // time ListenAndServe takes to reach net.Listen (well under the 100 ms probe tick)
 }
 
 func (f *fakeSrv) ListenAndServe() error {
+	if f.delay > 0 {
+		time.Sleep(f.delay)
+	}
 	f.mu.Lock()
 	if f.shut {
 		f.mu.Unlock()
@@ -140,6 +144,8 @@ type hist struct {
 	servers   []*wrapSrv
 	shutdowns atomic.Int64
 	fakeFail  atomic.Bool
+	slowBind  atomic.Bool
+	lastDelivered atomic.Int64 // table index of the configuration the callback delivered last
 	props     []string
 	parked    bool
 	parksHit  int
@@ -280,6 +286,9 @@ func (h *hist) creator(addr string, handler http.Handler, cfg *httpserver.Config
 		if h.fakeFail.Load() {
 			f.fail = errors.New("scripted shutdown failure")
 		}
+		if h.slowBind.Load() {
+			f.delay = 40 * time.Millisecond
+		}
 		w.inner = f
 	} else {
 		w.inner = httpserver.DefaultServerCreator(addr, handler, cfg)
@@ -310,6 +319,7 @@ func (h *hist) callback() (*httpserver.Config, error) {
 	c := h.cfgs[k]
 	h.mu.Unlock()
 	cfg := h.realCfg(c)
+	h.lastDelivered.Store(int64(k))
 	h.rec.Emit("CB%d", k)
 	return cfg, nil
 }
@@ -390,7 +400,11 @@ func (h *hist) snapshot(quiet bool) string {
 		h.rec.Emit("DL%s:%d", hx(a), b)
 	}
 	if st == "Running" && last != nil {
-		exp := h.cfgs[last.cfg]
+		// what must be served is what the harness DELIVERED last (initially or through the callback), not what
+		// the creation hook derived from the server it was handed
+		h.mu.Lock()
+		exp := h.cfgs[int(h.lastDelivered.Load())]
+		h.mu.Unlock()
 		var tblS string
 		var tbl map[string]string
 		served := true
@@ -605,6 +619,8 @@ func (h *hist) run() {
 			}
 		case "failstop":
 			h.fakeFail.Store(true)
+		case "slowbind":
+			h.slowBind.Store(true)
 		case "slowreq":
 			h.slowRequest(s.Ms)
 		case "wait":
@@ -849,6 +865,7 @@ func fixedScripts() []hscript {
 		{Name: "busy-then-free", Steps: []hstep{run, rl("addr"), rl("busy"), {Op: "ffree"}, stop}},
 		{Name: "boot-on-busy", Steps: []hstep{{Op: "fbind"}, run, rl("busy"), stop}},
 		{Name: "stop-failure", Kind: "fake", Steps: []hstep{{Op: "failstop"}, run, rl("addr"), rl("same"), stop}},
+		{Name: "slow-bind", Kind: "fake", Steps: []hstep{{Op: "slowbind"}, run, rl("addr"), rl("same"), stop}},
 		{Name: "stop-mid-unchanged", Steps: []hstep{run, rlp("same", "Config unchanged, skipping reload", "stop")}},
 		{Name: "slowstop-mid-unchanged", Kind: "real", Steps: []hstep{run, rlp("same", "Config unchanged, skipping reload", "slowstop")}},
 		{Name: "cancel-mid-unchanged", Steps: []hstep{run, rlp("perm", "Config unchanged, skipping reload", "cancel")}},
